@@ -334,3 +334,66 @@ def rejecting_checks_floor(ck, c, scope, name_pat, spec_key, rule="CMP"):
         ck.ob(rule, mod, "refusing-comparisons-not-fewer", cur.get(mod, 0) >= nref,
               "%d comparisons that can refuse in the verifier functions of this module (reference %d)" % (cur.get(mod, 0), nref), "")
     return cur
+
+
+def zero_buffer_sweep(ck, fns, rule, floor):
+    """A decoder that allocates a zero-initialised buffer (`vec![0; n]`, `[0; N]`) must hand it mutably to something (the
+    read that fills it) before using it: a zero buffer that is never borrowed mutably nor written reaches the result as
+    zeros, whatever the input said."""
+    n = 0
+    for f in fns:
+        bufs = []
+        for bi, blk in enumerate(f.blocks):
+            for si, st in enumerate(blk["s"]):
+                if "lhs" in st and st["rv"].get("k") == "repeat":
+                    k = op_const(st["rv"]["a"])
+                    if k is not None and const_int(k) == 0 and not st["lhs"][1]:
+                        bufs.append((st["lhs"][0], bi))
+            t = blk["t"]
+            if t["k"] == "call" and re.search(r"vec::from_elem", t["f"].get("path", "")) and t.get("dest") and not t["dest"][1]:
+                k = op_const(t["args"][0])
+                if k is not None and const_int(k) == 0:
+                    bufs.append((t["dest"][0], bi))
+        for (l, bi) in bufs:
+            # aliases by move/copy
+            al, work = {l}, [l]
+            while work:
+                x = work.pop()
+                for b2, blk in enumerate(f.blocks):
+                    for st in blk["s"]:
+                        if "lhs" in st and st["rv"].get("k") == "use" and not st["lhs"][1]:
+                            pa = op_place(st["rv"]["a"])
+                            if pa and pa[0] == x and not pa[1] and st["lhs"][0] not in al:
+                                al.add(st["lhs"][0]); work.append(st["lhs"][0])
+            filled = False
+            used = False
+            for b2, blk in enumerate(f.blocks):
+                for st in blk["s"]:
+                    if "lhs" not in st:
+                        continue
+                    if st["lhs"][0] in al and st["lhs"][1]:
+                        filled = True
+                    rv = st["rv"]
+                    if rv.get("k") in ("ref", "rawptr") and rv["p"][0] in al:
+                        if rv.get("mut") or rv["k"] == "rawptr":
+                            filled = True
+                        else:
+                            used = True
+                    elif rv.get("k") == "use":
+                        pa = op_place(rv["a"])
+                        if pa and pa[0] in al and st["lhs"][0] not in al:
+                            used = True
+                t = blk["t"]
+                if t["k"] == "call":
+                    for a in t["args"]:
+                        pa = op_place(a)
+                        if pa and pa[0] in al:
+                            used = True
+            if not used and not filled:
+                continue
+            n += 1
+            ck.ob(rule, f.path, "zero-buffer-filled@bb%d" % bi, filled,
+                  "the zero-initialised buffer is handed out mutably (filled) before it is used" if filled
+                  else "a zero-initialised buffer is used without ever being written or borrowed mutably: the decoder returns zeros instead of the input", f.loc(bi))
+    ck.floor(rule, "zero-initialised decoder buffers", n, floor)
+    return n
